@@ -5,6 +5,13 @@ pub trait Buf: Sized {
     spec fn view(&self) -> Seq<u8>;
     spec fn buf_wf(&self) -> bool;
     spec fn contiguous(&self) -> bool;
+    // evolution relation between two states of the same buffer object: every mutating method establishes it.
+    // It is `true` for plain buffers; for `Take<&mut T>` it says how the *inner* buffer moved (inc/take_shim.rs).
+    #[verifier::prophetic]
+    spec fn step_ok(pre: &Self, post: &Self) -> bool;
+    proof fn lemma_step_refl(a: &Self) requires a.buf_wf(), ensures Self::step_ok(a, a);
+    proof fn lemma_step_trans(a: &Self, b: &Self, c: &Self)
+        requires Self::step_ok(a, b), Self::step_ok(b, c), ensures Self::step_ok(a, c);
     fn remaining(&self) -> (r: usize)
         requires self.buf_wf(),
         ensures r == self@.len();
@@ -14,7 +21,7 @@ pub trait Buf: Sized {
     fn advance(&mut self, cnt: usize)
         requires (*old(self)).buf_wf(), cnt <= (*old(self))@.len(),
         ensures (*final(self)).buf_wf(), (*final(self))@ == (*old(self))@.skip(cnt as int),
-            (*old(self)).contiguous() ==> (*final(self)).contiguous();
+            (*old(self)).contiguous() ==> (*final(self)).contiguous(), Self::step_ok(&*old(self), &*final(self));
     // provided methods of bytes::Buf (definitions in the bytes crate; contracts assumed)
     fn has_remaining(&self) -> (r: bool)
         requires self.buf_wf(),
@@ -24,13 +31,13 @@ pub trait Buf: Sized {
     fn get_u8(&mut self) -> (r: u8)
         requires (*old(self)).buf_wf(), (*old(self))@.len() >= 1,
         ensures (*final(self)).buf_wf(), r == (*old(self))@[0], (*final(self))@ == (*old(self))@.skip(1),
-            (*old(self)).contiguous() ==> (*final(self)).contiguous()
+            (*old(self)).contiguous() ==> (*final(self)).contiguous(), Self::step_ok(&*old(self), &*final(self))
     { unimplemented!() }
     #[verifier::external_body]
     fn copy_to_bytes(&mut self, len: usize) -> (r: Bytes)
         requires (*old(self)).buf_wf(), len <= (*old(self))@.len(),
         ensures (*final(self)).buf_wf(), r.bytes() == (*old(self))@.take(len as int), (*final(self))@ == (*old(self))@.skip(len as int),
-            (*old(self)).contiguous() ==> (*final(self)).contiguous()
+            (*old(self)).contiguous() ==> (*final(self)).contiguous(), Self::step_ok(&*old(self), &*final(self))
     { unimplemented!() }
 }
 
@@ -51,7 +58,17 @@ impl Buf for Bytes {
     open spec fn view(&self) -> Seq<u8> { self.bytes() }
     open spec fn buf_wf(&self) -> bool { true }
     open spec fn contiguous(&self) -> bool { true }
+    #[verifier::prophetic]
+    open spec fn step_ok(pre: &Self, post: &Self) -> bool { true }
+    proof fn lemma_step_refl(a: &Self) {}
+    proof fn lemma_step_trans(a: &Self, b: &Self, c: &Self) {}
     #[verifier::external_body] fn remaining(&self) -> (r: usize) { unimplemented!() }
     #[verifier::external_body] fn chunk(&self) -> (r: &[u8]) { unimplemented!() }
     #[verifier::external_body] fn advance(&mut self, cnt: usize) { unimplemented!() }
 }
+
+// transitivity / reflexivity of `step_ok`, usable by the solver without explicit calls
+pub broadcast proof fn lemma_step_trans_auto<T: Buf>(a: &T, b: &T, c: &T)
+    requires #[trigger] T::step_ok(a, b), #[trigger] T::step_ok(b, c),
+    ensures T::step_ok(a, c),
+{ T::lemma_step_trans(a, b, c); }
